@@ -1030,3 +1030,12 @@ m('G8-decorator-factory-drops-the-path-entry-type', 'C12', 'G8', 'register_pytre
             namespace=cls,""",
   """            register_pytree_node_class,
             namespace=cls,""")
+m('T9-one-level-result-without-its-type', 'C18', 'T9', 'tree_flatten_one_level/type', 'optree/ops.py',
+  """    output.type = node_type
+    output.path_entry_type = handler.path_entry_type""",
+  """    output.path_entry_type = handler.path_entry_type""")
+m('T9-one-level-entries-and-metadata-swapped', 'C18', 'T9', 'tree_flatten_one_level/result-fields', 'optree/ops.py',
+  """    children, metadata, entries = flattened
+    children = list(children)""",
+  """    children, entries, metadata = flattened
+    children = list(children)""")
